@@ -1,6 +1,9 @@
 (* C14 correspondence: every strict prefix of generated valid files was decoded by the real decoders (in child
    processes, under a deadline and an address-space cap); the observations are judged here.
-   class: 0 Ok, 1 reported error, 2 runtime crash / process death (out of memory), 3 deadline exceeded. *)
+   class: 0 Ok, 1 reported error, 2 runtime crash / process death (out of memory), 3 deadline exceeded,
+   4 the result depends on the kind of io.Reader (every decode is repeated with seven reader kinds: bytes.Reader,
+   bytes.Buffer, strings.Reader, an opaque reader without Len, one-byte, half and data-with-EOF readers); prop_ok accepts
+   only classes 0 and 1. *)
 From PF Require Export Base.Bytes Formats.Stl Formats.Pts Formats.PlyRead Check.Common.
 From PF Require Formats.Splat Formats.Spz.
 From Coq Require Export String.
